@@ -3,6 +3,6 @@
 -- source-derived obligation concerns its own property only.
 import Rbql
 import Rbql.Generated.SharedState
-import Rbql.Theorems.C16
+import Rbql.Theorems.C16Gen
 import Rbql.Generated.RowFlow
 import Rbql.Theorems.C06Gen
